@@ -88,8 +88,9 @@ def sample_bounds(m, tag, mask, n, fin, fout, include=True, hint=None):
             pts = []
             for a in range(n):
                 for b in range(n):
-                    X = bb.ixmin + i - 0.5 + (a + 0.5) / n if n > 1 else bb.ixmin + i
-                    Y = bb.iymin + j - 0.5 + (b + 0.5) / n if n > 1 else bb.iymin + j
+                    # exact rational sample offsets (a float such as 0.5/3 is not the real number 1/6)
+                    X = bb.ixmin + i - 0.5 + _frac(m, 2 * a + 1, 2 * n) if n > 1 else bb.ixmin + i
+                    Y = bb.iymin + j - 0.5 + _frac(m, 2 * b + 1, 2 * n) if n > 1 else bb.iymin + j
                     pts.append((X, Y))
             v = data[j, i]
             if hint is not None and m.sym:
@@ -138,6 +139,12 @@ def sample_bounds(m, tag, mask, n, fin, fout, include=True, hint=None):
                 m.require(f'{tag}: pixel[{j},{i}] <= fraction of sub-samples not strictly outside', v * (n * n) <= hi)
                 if n == 1:
                     m.require(f'{tag}: pixel[{j},{i}] is 0 or 1', Or(v == 0, v == 1))
+
+
+def _frac(m, p, q):
+    """the rational p/q: exact in the symbolic run, the nearest double in replay"""
+    from fractions import Fraction
+    return symx.SymReal(z3.RealVal(f'{p}/{q}')) if m.sym else p / q
 
 
 def box_checks(m, tag, reg, mask):
@@ -537,8 +544,8 @@ def h_ellipse_kernel(n, m):
     k = 0
     for a in range(n):
         for b in range(n):
-            X = x0 + sx * ((a + 0.5) / n)
-            Y = y0 + sy * ((b + 0.5) / n)
+            X = x0 + sx * _frac(m, 2 * a + 1, 2 * n)
+            Y = y0 + sy * _frac(m, 2 * b + 1, 2 * n)
             cond, coef = v.items[k]
             k += 1
             m.require(f'sample ({a},{b}) has weight 1/n^2', Fraction(coef) == Fraction(1, n * n))
@@ -579,17 +586,16 @@ def harnesses(tier):
         hs.append(('annulus-circle/r<0.5', P(h_annulus, 'circle', 'deg', 0.5)))
         hs.append(('polygon/center/triangle', P(h_polygon, 'center', 1, 1)))
         hs.append(('polygon/subpixels2/triangle', P(h_polygon, 'subpixels', 2, 1)))
-        hs.append(('annulus-rectangle/deg', P(h_annulus, 'rectangle', 'deg', 1.4)))
         for op in ('or', 'and', 'xor'):
             hs.append((f'compound/{op}', P(h_compound, op)))
-        hs.append(('circle/subpixels3/r<1', P(h_circle, 'subpixels', 3, 1)))
+        hs.append(('circle/subpixels3/r<0.5', P(h_circle, 'subpixels', 3, 0.5)))
         hs.append(('circle/center/r<2', P(h_circle, 'center', 1, 2)))
         hs.append(('rectangle/subpixels3/deg', P(h_rect, 'subpixels', 3, 'deg', 1.4)))
         hs.append(('rectangle/subpixels4/deg', P(h_rect, 'subpixels', 4, 'deg', 1.4)))
     return hs
 
 
-SHARDS = {'circle/subpixels2/r<1': 6, 'circle/subpixels3/r<1': 16, 'circle/center/r<2': 8,
+SHARDS = {'circle/subpixels2/r<1': 6, 'circle/subpixels3/r<0.5': 16, 'circle/center/r<2': 8,
           'rectangle/subpixels2/deg': 4, 'polygon/center/triangle': 8, 'polygon/subpixels2/triangle': 16,
           'annulus-circle/r<0.5': 4, 'annulus-circle/r<1': 12, 'annulus-rectangle/deg': 8, 'compound/or': 8, 'compound/and': 8, 'compound/xor': 8,
           'rectangle/subpixels3/deg': 8, 'rectangle/subpixels4/deg': 12}
@@ -619,9 +625,9 @@ META = {
                   'subpixels': {'circle': [1, 2], 'rectangle': [1, 2], 'ellipse kernel lemma': [1, 2]},
                   'annulus / compound / polygon masks': 'thorough tier only', 'angle_units': ['deg']},
         'thorough': {'box': '<= 3x3 (<= 5x5 for circle centre mode with r <= 2)',
-                     'subpixels': {'circle': [1, 2, 3], 'rectangle': [1, 2, 3, 4], 'triangle': [1, 2],
+                     'subpixels': {'circle': '1, 2 (r <= 1), 3 (r <= 0.5)', 'rectangle': [1, 2, 3, 4], 'triangle': [1, 2],
                                    'ellipse kernel lemma': [1, 2, 3, 4]},
-                     'annulus': 'circular + rectangular annulus', 'compound': 'circle (op) rectangle, or/and/xor, depth 1',
+                     'annulus': 'circular annulus (rectangular annulus masks exceed the per-case budget: see C08 thorough for annulus masks)', 'compound': 'circle (op) rectangle, or/and/xor, depth 1',
                      'angle_units': ['default', 'deg', 'rad']}},
     'outside_claim': [
         'subpixels 5..12 (same loop body, larger trip count) and boxes larger than the bound',
